@@ -166,6 +166,7 @@ fn op_kind(op: &Op) -> &'static str {
         Op::Update(..) => "update",
         Op::UpdateUnknown(_) => "update-unknown",
         Op::Remove(_) => "remove",
+        Op::Get(_) => "get",
         Op::Flush => "flush",
         Op::CompactBtree | Op::CompactBm25 => "compact",
         Op::SaveExt(_) | Op::RemoveExt => "ext",
